@@ -13,6 +13,7 @@ package cache_test
 // holds (kind of value and TTL per key) with what the specification predicted.
 
 import (
+	"bufio"
 	"database/sql"
 	"encoding/json"
 	"fmt"
@@ -64,6 +65,7 @@ type mnode struct {
 	idx  int // 1-based node number of the specification
 	m    *miniredis.Miniredis
 	addr string
+	rds  *redis.Redis // same address, hence the same pooled client as the cache node under test
 	mu   sync.Mutex
 	down bool // error-reply outage
 	shut bool // server closed
@@ -99,6 +101,7 @@ func newNode(idx int) (*mnode, error) {
 		return nil, err
 	}
 	n := &mnode{idx: idx, m: m, addr: m.Addr()}
+	n.rds = redis.New(n.addr)
 	m.Server().SetPreHook(n.hook)
 	return n, nil
 }
@@ -242,7 +245,7 @@ func (e *env) reset() error {
 	return nil
 }
 
-var errRestart = fmt.Errorf("miniredis could not be restarted on its port")
+var errRestart = fmt.Errorf("miniredis could not be restarted on its port / did not become reachable again")
 
 func (e *env) setUp(n *mnode, up bool) error {
 	if e.fault == "close" {
@@ -259,6 +262,11 @@ func (e *env) setUp(n *mnode, up bool) error {
 			}
 			n.m.Server().SetPreHook(n.hook)
 			n.shut = false
+			// "back" means reachable by the client: after many failed dials go-redis refuses
+			// to dial at all until its background probe (once per second) has succeeded
+			if !kit.WaitFor(5*time.Second, n.rds.Ping) {
+				return errRestart
+			}
 		} else if !up && !n.shut {
 			n.m.Close()
 			n.shut = true
@@ -592,7 +600,7 @@ func (cr *caseRunner) run(c kit.Case) (v kit.Verdict) {
 				}
 				got, wnt := strings.Join(e.delsNow(), " "), strings.Join(wantDels(want[t]), " ")
 				if got != wnt {
-					key := "C06:retry:removal-repeated-after-success"
+					key := "C06:retry:unexpected-removal"
 					switch {
 					case wnt != "" && got == "":
 						key = "C06:retry:failed-removal-not-retried"
@@ -616,6 +624,15 @@ func (cr *caseRunner) run(c kit.Case) (v kit.Verdict) {
 		v.Steps++
 		loose := kit.Bool(st["loose"])
 		wantRes := kit.Str(st["res"])
+		if op == "qrow" || op == "qindex" {
+			cr.rep.Count("read_"+wantRes, 1)
+			if loose {
+				cr.rep.Count("read_loose", 1)
+			}
+			if kit.Num(st["qp"])+kit.Num(st["qi"]) == 0 && wantRes != "cacheerr" {
+				cr.rep.Count("read_shielded", 1)
+			}
+		}
 		resOK := gotRes == wantRes
 		if resOK && wantRes == "row" {
 			w := st["row"].(map[string]any)
@@ -738,11 +755,35 @@ func envFromEnviron() (*env, error) {
 		time.Duration(cfg.NF)*time.Second, kit.Env("VERIF_C06_FAULT", "error"))
 }
 
-func TestVerifC06(t *testing.T) {
-	cases, err := kit.LoadCases(kit.Env("VERIF_CASES", ""))
+// forEachCase streams the case file: one line is decoded at a time and only the lines of this
+// shard are decoded at all (the files of this check are large; nothing is retained).
+func forEachCase(path string, shard, shards int, fn func(kit.Case)) error {
+	f, err := os.Open(path)
 	if err != nil {
-		t.Fatal(err)
+		return err
 	}
+	defer f.Close()
+	sc := bufio.NewScanner(f)
+	sc.Buffer(make([]byte, 1<<20), 1<<27)
+	i := 0
+	for sc.Scan() {
+		line := sc.Bytes()
+		if len(line) == 0 {
+			continue
+		}
+		if i%shards == shard {
+			var steps []kit.M
+			if err := json.Unmarshal(line, &steps); err != nil {
+				return fmt.Errorf("case %d: %v", i, err)
+			}
+			fn(kit.Case{Index: i, Steps: steps})
+		}
+		i++
+	}
+	return sc.Err()
+}
+
+func TestVerifC06(t *testing.T) {
 	rep, err := kit.NewReporter(kit.Env("VERIF_OUT", ""))
 	if err != nil {
 		t.Fatal(err)
@@ -760,11 +801,8 @@ func TestVerifC06(t *testing.T) {
 	defer e.close()
 	cr := &caseRunner{e: e, rep: rep}
 	shard, shards := kit.EnvInt("VERIF_SHARD", 0), kit.EnvInt("VERIF_SHARDS", 1)
-	for _, c := range cases {
-		if c.Index%shards != shard {
-			continue
-		}
-		rep.Put(cr.run(c))
+	if err := forEachCase(kit.Env("VERIF_CASES", ""), shard, shards, func(c kit.Case) { rep.Put(cr.run(c)) }); err != nil {
+		rep.Put(kit.Verdict{Infra: true, Msg: err.Error()})
 	}
 }
 
@@ -775,3 +813,133 @@ func TestVerifC06Ladder(t *testing.T) {
 		t.Fatal(err)
 	}
 }
+
+// ---------------------------------------------------------------- concurrent readers
+
+// TestVerifC06Concurrent records what concurrent readers of uncached keys do: rounds of
+// [sequential writes through Exec] ; [many goroutines QueryRow the same keys at once against a
+// slow database callback] ; [a second wave of readers] ; [TTLs as stored].  Every event gets
+// its position in the trace under the tracer's mutex (reads: at call and at return; database
+// callback: at entry and at exit), and the trace is validated by TLC against
+// spec/CacheAsideTrace.tla (at most one database query in flight per key, every reader gets the
+// current row, the database is not reached again once a query has ended, TTLs within +-5 %).
+func TestVerifC06Concurrent(t *testing.T) {
+	tr, err := kit.NewTracer(kit.Env("VERIF_OUT", ""))
+	if err != nil {
+		t.Fatal(err)
+	}
+	defer tr.Close()
+	mathx.SetVerifCoin(func(float64) (bool, bool) { return false, true })
+	defer mathx.SetVerifCoin(nil)
+	mathx.SetVerifUnstable(nil) // real jitter: TTLs are checked against the +-5 % range
+	rounds, readers := kit.EnvInt("VERIF_C06_ROUNDS", 40), kit.EnvInt("VERIF_C06_READERS", 16)
+	ids := []int{1, 2}
+	e, err := newEnv(1, map[string]int{"p:1": 1, "p:2": 1}, ids, nil,
+		time.Duration(kit.EnvInt("VERIF_C06_E", 30))*time.Second, time.Duration(kit.EnvInt("VERIF_C06_NF", 10))*time.Second, "error")
+	if err != nil {
+		tr.Emit(kit.M{"e": "infra", "msg": err.Error()})
+		return
+	}
+	defer e.close()
+	if err := e.reset(); err != nil {
+		tr.Emit(kit.M{"e": "infra", "msg": err.Error()})
+		return
+	}
+	var dbmu sync.Mutex
+	db := map[int]row{}
+	rnd := newRand(kit.Seed())
+	read := func(rid, id int) {
+		k := pkey(id)
+		tr.Emit(kit.M{"e": "inv", "r": rid, "k": k})
+		var r row
+		err := e.conn.QueryRow(&r, e.real[k], func(_ sqlx.Conn, v any) error {
+			tr.Emit(kit.M{"e": "dbb", "k": k})
+			dbmu.Lock()
+			d, ok := db[id]
+			dbmu.Unlock()
+			time.Sleep(time.Duration(rnd.delay()) * time.Microsecond) // a slow database widens the window; no verdict depends on it
+			tr.Emit(kit.M{"e": "dbe", "k": k})
+			if !ok {
+				return sqlc.ErrNotFound
+			}
+			*v.(*row) = d
+			return nil
+		})
+		res := e.classify(err)
+		if res == "ok" {
+			res = "row"
+		}
+		tr.Emit(kit.M{"e": "ret", "r": rid, "k": k, "res": res, "d": r.Data})
+	}
+	wave := func(n int) {
+		var wg sync.WaitGroup
+		start := make(chan struct{})
+		rid := 0
+		for _, id := range ids {
+			for j := 0; j < n; j++ {
+				rid++
+				wg.Add(1)
+				go func(rid, id int) {
+					defer wg.Done()
+					<-start
+					read(rid, id)
+				}(rid, id)
+			}
+		}
+		close(start)
+		wg.Wait()
+	}
+	for r := 1; r <= rounds; r++ {
+		for _, id := range ids {
+			data := ""
+			if rnd.intn(4) != 0 {
+				data = fmt.Sprintf("r%d", r)
+			}
+			_, err := e.conn.Exec(func(_ sqlx.Conn) (sql.Result, error) {
+				dbmu.Lock()
+				if data == "" {
+					delete(db, id)
+				} else {
+					db[id] = row{Id: int64(id), Name: "n", Data: data}
+				}
+				dbmu.Unlock()
+				return nil, nil
+			}, e.real[pkey(id)])
+			if err != nil {
+				tr.Emit(kit.M{"e": "infra", "msg": "exec: " + err.Error()})
+				return
+			}
+			tr.Emit(kit.M{"e": "write", "k": pkey(id), "d": data})
+		}
+		wave(readers)
+		wave(2)
+		got, bad := e.cacheNow()
+		if bad != "" {
+			tr.Emit(kit.M{"e": "infra", "msg": bad})
+			return
+		}
+		for _, id := range ids {
+			code := got[pkey(id)]
+			tr.Emit(kit.M{"e": "ttl", "k": pkey(id), "kind": kindNames[code%10], "ttl": code / 10})
+		}
+	}
+}
+
+// small deterministic generator (seeded by VERIF_SEED), safe for concurrent use
+type c06rand struct {
+	mu sync.Mutex
+	s  uint64
+}
+
+func newRand(seed int64) *c06rand { return &c06rand{s: uint64(seed)*2654435761 + 88172645463325252} }
+func (r *c06rand) next() uint64 {
+	r.mu.Lock()
+	r.s ^= r.s << 13
+	r.s ^= r.s >> 7
+	r.s ^= r.s << 17
+	v := r.s
+	r.mu.Unlock()
+	return v
+}
+func (r *c06rand) intn(n int) int { return int(r.next() % uint64(n)) }
+func (r *c06rand) delay() int     { return []int{0, 200, 1000, 3000}[r.intn(4)] }
